@@ -35,7 +35,7 @@ def crateOf (c : Int × Int × Bytes) : Forest.Crate := ⟨c.1, c.2.2, parentOpt
 /-- The Playlist table read as a forest: one crate per row, in row order. -/
 def absF (d : Db) : Forest.Forest := ⟨(cores d.pl).map crateOf⟩
 
-def pairOf (c : Int × Int × Int) : Int × Int := (c.2.1, c.2.2)
+def pairOf (c : Int × Int × Ent) : Int × Int := (c.2.1, c.2.2.track)
 
 /-- Playlist / Track / PlaylistEntity read as a membership state: live crates, live tracks, (list, track) per entity row. -/
 def absM (d : Db) : Members.State := ⟨ids d.pl, d.tracks, (cores d.pe).map pairOf⟩
@@ -132,7 +132,7 @@ def judgeM (s : Members.State) (d : Db) (op : Op) (res : Res Out) : Option Membe
 /-- The crate / track API (what C07, C08 and C11 quantify over); the `pe*` operations are the
 table-level playlist_entity_table interface (C09 only). -/
 def apiOp : Op → Bool
-  | .peAddBack _ _ _ | .peRemove _ _ | .peClear _ => false
+  | .peAddBack _ _ _ _ | .peRemove _ _ | .peClear _ => false
   | _ => true
 
 def specRunM : Db → Members.State → List Op → Option Members.State
@@ -187,8 +187,8 @@ def ordOk (S : Ord) (d : Db) (op : Op) (out : Out) : Ord :=
             | some e => (S.ents l).erase e.id
             | none => S.ents l
           else S.ents l }
-    | .addTrack c t, some e => if (peGet d c t).isNone then { S with ents := setKey S.ents c (S.ents c ++ [e]) } else S
-    | .peAddBack l t _, some e => if (peGet d l t).isNone then { S with ents := setKey S.ents l (S.ents l ++ [e]) } else S
+    | .addTrack c t, some e => if (peFind d c t 0).isNone then { S with ents := setKey S.ents c (S.ents c ++ [e]) } else S
+    | .peAddBack l t u _, some e => if (peFind d l t u).isNone then { S with ents := setKey S.ents l (S.ents l ++ [e]) } else S
     | .removeTrackFrom c t, _ =>
       match peGet d c t with
       | some e => { S with ents := setKey S.ents c ((S.ents c).erase e.id) }
@@ -210,7 +210,7 @@ def ordRun : Db → Ord → List Op → Ord
 /-- Table-level `add_back` with a non-positive track id is outside the domain of C09's theorem
 (recorded finding: the schema's delete trigger is declared `WHEN OLD.trackId > 0`). -/
 def okOp : Op → Bool
-  | .peAddBack _ t _ => decide (0 < t)
+  | .peAddBack _ t _ _ => decide (0 < t)
   | _ => true
 
 /-- What the property prescribes for the sibling listing of key `k` across one operation
@@ -251,8 +251,8 @@ def entsChangeOk (d : Db) (op : Op) (out : Out) (l : Int) : Ordered.Change :=
         | some e => .erased e.id
         | none => .same
       else .same
-    | .addTrack c t, some e => if l = c && (peGet d c t).isNone then .appended e else .same
-    | .peAddBack c t _, some e => if l = c && (peGet d c t).isNone then .appended e else .same
+    | .addTrack c t, some e => if l = c && (peFind d c t 0).isNone then .appended e else .same
+    | .peAddBack c t u _, some e => if l = c && (peFind d c t u).isNone then .appended e else .same
     | .removeTrackFrom c t, _ =>
       match peGet d c t with
       | some e => if l = c then .erased e.id else .same
